@@ -1239,11 +1239,12 @@ def shared_source_shape(prog: Program) -> bool:
         e = strip(e)
         ops = operands(e)
         if ops:
-            live = [o for o in ops if not is_const(o)]
+            live = [strip(o) for o in ops if not is_const(o)]
+            # distinct sources at this combinator: a name counts once however often it is written
+            distinct = len({("n", root(o.name)) if isinstance(o, Ref) else ("a", id(o)) for o in live})
             for o in live:
-                o = strip(o)
                 if isinstance(o, Ref):
-                    uses.setdefault(root(o.name), []).append((id(e), len(live)))
+                    uses.setdefault(root(o.name), []).append((id(e), distinct))
             for o in ops:  # the absorbed comparison / chain parts are this same combinator: go on below them
                 visit(o)
             return
